@@ -549,6 +549,44 @@ func emptyDirectUnderOperator(m *Model) bool {
 	return false
 }
 
+// edgelessOperator: some relation without type restrictions contains an
+// intersection or exclusion all of whose operands are direct assignments.
+func edgelessOperator(m *Model) bool {
+	for _, t := range m.Types {
+		for _, rel := range t.Relations {
+			if len(rel.Direct) > 0 {
+				continue
+			}
+			found := false
+			var rec func(e *Expr)
+			rec = func(e *Expr) {
+				if e == nil {
+					return
+				}
+				if (e.Kind == KInter || e.Kind == KExcl) && len(e.Children) > 0 {
+					all := true
+					for _, c := range e.Children {
+						if c.Kind != KThis {
+							all = false
+						}
+					}
+					if all {
+						found = true
+					}
+				}
+				for _, c := range e.Children {
+					rec(c)
+				}
+			}
+			rec(rel.Expr)
+			if found {
+				return true
+			}
+		}
+	}
+	return false
+}
+
 // injectEmptyDirect removes the type restrictions of one relation whose direct
 // assignment sits directly under an intersection or is the base of an
 // exclusion (a shape only JSON/protobuf can express). Returns false when the
